@@ -113,6 +113,11 @@ class H(bf.Family):
 
 
 def check(tier, seed, procs):
+    # additional phase: statement-level interleavings of pairs of these operations under a row-lock model (vf/txpairs.py);
+    # run first (its forked workers then copy a small heap), merged into the result at the end; it never raises
+    from vf import txpairs
+
+    phase = txpairs.run_phase(tier, procs, MONITORS)
     depth = 5 if tier == 'quick' else 8
     res = dbmc.bfs(H, (sorted(MONITORS), base.setups(tier), tier, None), depth=depth, procs=procs, time_budget=70 if tier == 'quick' else 1500)
     cov = bf.coverage(res, f'1 batch, update 1 committed (2-3 jobs, 1-2 nested groups), update 2 submitted step by step '
@@ -121,10 +126,7 @@ def check(tier, seed, procs):
     out = {'coverage': cov, 'violations': res.violations, 'assumptions': bf.ASSUME + [
         'differential clause: compared only while no other update was opened after the uncommitted one (later updates would get different ids)'],
            'vacuous': None if res.states > 100 else f'only {res.states} states'}
-    # additional phase: statement-level interleavings of pairs of these operations under a row-lock model (vf/txpairs.py)
-    from vf import txpairs
-
-    return txpairs.merge_into(out, tier, procs, MONITORS)
+    return txpairs.merge_into(out, phase)
 
 
 def replay(obj):
